@@ -5,6 +5,7 @@ From V.lib Require Import Base.
 From V.c07 Require Import C07Model.
 From V.c06 Require Import C06Model C06InitModel C06StructProofs C06CencProofs C06CbcsProofs C06SampleProofs C06InitProofs C06FragModel C06FragProofs.
 From V.c06 Require Import C06SencModel C06SencProofs C06SencAuxProofs C06TrexModel C06TrexProofs C06EntryModel C06EntryProofs.
+From V.c06 Require Import C06FileCbcsProofs.
 
 (* cenc: crypting twice with the same key, IV and sub-sample map restores the sample — for EVERY block function
    E, every map (empty = whole sample, partial last block, clear runs > 65535, even overlapping or wrapping
@@ -306,6 +307,55 @@ Theorem C06_file_roundtrip_cenc :
 Proof. exact file_roundtrip_cenc. Qed.
 Print Assumptions C06_file_roundtrip_cenc.
 
+(* ---------------------------------------------------------------- cbcs: lengths, trex, whole files *)
+(* cryptSampleCbcs (either direction, every crypt:skip pattern, every sub-sample map that lies inside the sample)
+   returns a sample of the same length: proved from the model (splices of equal length, CBC over whole blocks) *)
+Theorem C06_cbcs_keeps_length :
+  forall (E D : list N -> list N -> list N),
+  (forall k b, length (E k b) = 16%nat) -> (forall k b, length (D k b) = 16%nat) ->
+  forall dec key iv ssps cb sb s c,
+  key_ok key = true -> length iv = 16%nat -> fits s ssps ->
+  crypt_sample_cbcs E D dec key iv ssps cb sb s = Ok c -> length c = length s.
+Proof. exact crypt_sample_cbcs_length. Qed.
+Print Assumptions C06_cbcs_keeps_length.
+
+(* the trex-parameterised round trip for cbcs WITHOUT the "encryption keeps every sample length" hypothesis of
+   C06_fragment_roundtrip_trex_generic: the whole mdat payload (below 4 GiB) is restored when both sides resolve the
+   sample sizes with the same trex *)
+Theorem C06_fragment_roundtrip_trex_cbcs :
+  forall (E D : list N -> list N -> list N),
+  (forall k b, length (E k b) = 16%nat) -> (forall k b, length (D k b) = 16%nat) ->
+  forall (protfunc : list N -> res (list ssp)),
+  (forall k b, length b = 16%nat -> D k (E k b) = b) ->
+  forall key iv cb sb start mdat_hdr ids trex_e trex_d f e pl,
+  key_ok key = true -> prot_inside protfunc -> lenN (pf_payload f) < 4294967296 ->
+  trex_d = trex_e ->
+  clean_moof (pf_children f) = true -> nr_trafs (pf_children f) = 1%nat ->
+  encrypt_frag_trex E D protfunc Cbcs key iv cb sb start mdat_hdr ids trex_e f = Ok (e, pl) ->
+  decrypt_frag_trex E D Cbcs key (pad_iv iv) cb sb trex_d (pf_sizing f) e pl
+  = Ok (layout start (pf_children f) mdat_hdr, pf_payload f).
+Proof. exact trex_roundtrip_cbcs. Qed.
+Print Assumptions C06_fragment_roundtrip_trex_cbcs.
+
+(* whole files, cbcs, any number of fragments: as C06_file_roundtrip_cenc (the constant IV of tenc is the padded
+   encryption IV; samples below 4 GiB) *)
+Theorem C06_file_roundtrip_cbcs :
+  forall (E D : list N -> list N -> list N),
+  (forall k b, length (E k b) = 16%nat) -> (forall k b, length (D k b) = 16%nat) ->
+  forall (protfunc : list N -> res (list ssp)),
+  (forall k b, length b = 16%nat -> D k (E k b) = b) ->
+  forall key iv cb sb, key_ok key = true -> prot_inside protfunc ->
+  forall (fs : list (cfrag * N)) start_e ids es,
+  Forall (fun p : cfrag * N => clean_moof (cf_children (fst p)) = true /\ nr_trafs (cf_children (fst p)) = 1%nat /\
+                               forallb (fun s => lenN s <? 4294967296) (cf_samples (fst p)) = true) fs ->
+  encrypt_file E D protfunc Cbcs key iv cb sb start_e ids fs = Ok es ->
+  exists gs, decrypt_file E D Cbcs key (pad_iv iv) cb sb es = Ok gs /\
+    (forall start_c, reencode start_c gs = layout_file start_c fs) /\
+    map (fun g => snd (fst g)) gs = map (fun p => cf_samples (fst p)) fs /\
+    map (fun g => f_moof_start (fst (fst g))) gs = enc_positions start_e fs es.
+Proof. exact file_roundtrip_cbcs. Qed.
+Print Assumptions C06_file_roundtrip_cbcs.
+
 (* ---------------------------------------------------------------- several sample entries, several tracks *)
 (* a moov in which EVERY sample entry of EVERY track has been protected the way InitProtect protects its single
    entry (type -> encv / enca, sinf(frma = original type, schm, schi(tenc)) appended after the entry's own
@@ -436,3 +486,18 @@ Example ex_init_restore_all :
   | _ => False
   end.
 Proof. vm_compute. repeat split; reflexivity. Qed.
+
+(* the hypotheses of the cbcs file theorem are satisfiable: audio (no sub-sample map), two fragments, pattern 0:0 *)
+Example ex_file_roundtrip_cbcs :
+  let f1 := (mkC [MOther 16 1; MTraf [mkT TOther 16 2; mkT TTrun 40 3; mkT (TSbgp cc_roll) 28 7; mkT (TSgpd cc_roll) 26 8]] [repeat 5 40; repeat 6 3], 8) in
+  let f2 := (mkC [MTraf [mkT TOther 16 4; mkT TTrun 28 5; mkT TUuidOther 44 6]] [repeat 7 17], 8) in
+  prot_inside (fun _ => Ok []) /\
+  Forall (fun p : cfrag * N => clean_moof (cf_children (fst p)) = true /\ nr_trafs (cf_children (fst p)) = 1%nat /\
+                               forallb (fun s => lenN s <? 4294967296) (cf_samples (fst p)) = true) [f1; f2] /\
+  match encrypt_file ex_E ex_E (fun _ => Ok []) Cbcs (repeat 3 16) (repeat 9 8) 0 0 1000 50 [f1; f2] with
+  | Ok es => map (fun e => ef_data (fst e)) es <> [[repeat 5 40; repeat 6 3]; [repeat 7 17]]
+  | _ => False
+  end.
+Proof.
+  split; [intros s ssps H; injection H as <-; cbn; lia|]. split; [repeat constructor|]. vm_compute. discriminate.
+Qed.
